@@ -57,6 +57,10 @@ func replayVfp(line []byte, a *Acc) {
 	mv := l.M.ToMap()
 	before := tagged.CanonGo(mv)
 	nontriv := 0
+	var hf heldFns
+	defer hf.check(func(name, was, now string) {
+		a.Mis("vfp:result-changed-later", fmt.Sprintf("on %s: the result of %s was %s when returned and reads %s after later calls", short(before), name, short(was), short(now)), l)
+	})
 	for _, c := range l.Cs {
 		exp := tagged.NormList(c.R)
 		if len(exp) > 0 {
@@ -77,6 +81,10 @@ func replayVfp(line []byte, a *Acc) {
 			continue
 		}
 		g := tagged.CanonList(got)
+		if len(got) > 0 {
+			held := got
+			hf.add(fmt.Sprintf("ValuesForPath(%q)", c.P), func() string { return strings.Join(tagged.CanonList(held), " ") })
+		}
 		ok := false
 		if wild {
 			ok = tagged.SameBag(g, exp)
@@ -241,6 +249,10 @@ func replayVfk(line []byte, a *Acc) {
 	before := tagged.CanonGo(mv)
 	nontriv := 0
 	defer mxj.SetFieldSeparator()
+	var hf heldFns
+	defer hf.check(func(name, was, now string) {
+		a.Mis("vfk:result-changed-later", fmt.Sprintf("on %s: the result of %s was %s when returned and reads %s after later calls", short(before), name, short(was), short(now)), l)
+	})
 	for _, c := range l.Ks {
 		exp := tagged.NormList(c.R)
 		if len(exp) > 0 {
@@ -263,6 +275,10 @@ func replayVfk(line []byte, a *Acc) {
 				continue
 			}
 			g := tagged.CanonList(got)
+			if len(got) > 0 {
+				held := got
+				hf.add(fmt.Sprintf("ValuesForKey(%q,%v)", c.Key, sk), func() string { return strings.Join(tagged.CanonList(held), " ") })
+			}
 			if !tagged.SameBag(g, exp) {
 				kind := "differs"
 				if len(g) > len(exp) {
@@ -302,6 +318,10 @@ func replayVfk(line []byte, a *Acc) {
 		}
 		if len(c.Paths) > 0 {
 			nontriv++
+		}
+		if len(got) > 0 {
+			held := got
+			hf.add(fmt.Sprintf("PathsForKey(%q)", c.Key), func() string { return strings.Join(held, " ") })
 		}
 		if !tagged.SameBag(got, c.Paths) {
 			one("pfk:differs", fmt.Sprintf("PathsForKey(%q) on %s = %v, spec %v", c.Key, short(before), got, c.Paths))
@@ -442,6 +462,10 @@ func replayLeaf(line []byte, a *Acc) {
 	emptyKey := hasEmptyKey(mv) || hasNestedList(mv) // outside the resolution clause's domain
 	nontriv, cases := 0, 0
 	defer func() { mxj.SetAttrPrefix("-"); mxj.LeafUseDotNotation(false) }()
+	var hf heldFns
+	defer hf.check(func(name, was, now string) {
+		a.Mis("leaf:result-changed-later", fmt.Sprintf("on %s: the result of %s was %s when returned and reads %s after later Leaf* calls", short(before), name, short(was), short(now)), l)
+	})
 	for _, c := range l.Cs {
 		// prefixes under which no key of the alphabet is an attribute / under which "-x" is one
 		prefixes := []string{"@", "", "-y", "-xx"}
@@ -474,6 +498,18 @@ func replayLeaf(line []byte, a *Acc) {
 			g := make([]string, len(ln))
 			for i, n := range ln {
 				g[i] = n.Path + " = " + tagged.CanonGo(n.Value)
+			}
+			if len(ln) > 0 {
+				hln, hlp, hlv := ln, lp, lv
+				hf.add(fmt.Sprintf("LeafNodes(%v) under prefix %q dot %v", c.Na, pfx, c.Dot), func() string {
+					r := make([]string, len(hln))
+					for i, n := range hln {
+						r[i] = n.Path + " = " + tagged.CanonGo(n.Value)
+					}
+					return strings.Join(r, "; ")
+				})
+				hf.add(fmt.Sprintf("LeafPaths(%v)", c.Na), func() string { return strings.Join(hlp, "; ") })
+				hf.add(fmt.Sprintf("LeafValues(%v)", c.Na), func() string { return strings.Join(tagged.CanonList(hlv), "; ") })
 			}
 			if !tagged.SameBag(g, exp) {
 				one(fmt.Sprintf("leaf:nodes:noattr=%v:dot=%v", c.Na, c.Dot), fmt.Sprintf("LeafNodes(%v) prefix %q dot %v on %s: got %v, spec %v", c.Na, pfx, c.Dot, short(before), g, exp))
